@@ -84,7 +84,7 @@ PROPS = {
     "C16": dict(
         title="CLP(FD) soundness (answers satisfy every posted constraint)",
         props_module="PvModel.Props.C16",
-        props_extra=["PvModel.Props.C16Rel", "PvModel.Props.C16Keys"],
+        props_extra=["PvModel.Props.C16Rel", "PvModel.Props.C16Keys", "PvModel.Props.C17Enforce"],
         rule="every program twice: (1) as a query — FD programs: 1-4 variables, interval and sparse (unsorted, duplicated) domains over -4..=4 with mixed signs placed before/between/after "
              "the constraints, 1-5 constraints of every kind with operand aliasing and constants, == between variables and to numbers, 1 in 6 with a "
              "conde of constraint groups, hidden (non-query) FD variables; observable: answer sequence; oracle: brute force over the window — every "
